@@ -485,7 +485,9 @@ where
     #[inline]
     async fn on_heartbeat(&mut self) -> Result<Running, ConnectionInnerError> {
         match &self.connection.local_state() {
-            ConnectionState::Start | ConnectionState::CloseSent => return Ok(Running::Continue),
+            ConnectionState::Start | ConnectionState::CloseSent | ConnectionState::Discarding => {
+                return Ok(Running::Continue)
+            }
             ConnectionState::End => return Ok(Running::Stop),
             _ => {}
         }
